@@ -407,7 +407,7 @@ pub fn step<S: Subject>(m: &S, model: &mut FlatModel, t: &mut Tape, cx: &mut Cx)
                 Some(i) => {
                     let off = a - lay.regs[i].0;
                     let fits = off as u128 + sz as u128 <= lay.regs[i].1 as u128;
-                    let host = m.host(i) as usize + off as usize;
+                    let host = m.align_addr(i, off as usize);
                     Some(fits && host % sz == 0)
                 }
             };
@@ -472,6 +472,42 @@ fn run_mmap(t: &mut Tape, cx: &mut Cx) -> Result<(), String> {
     history(&subj.mem, &lay, &subj.files, t, cx)
 }
 
+/// xen build: guest memory made of emulated foreign / grant regions (mapped in advance and on
+/// demand) and Unix regions; adjacent page-sized regions so that accesses cross between kinds.
+#[cfg(feature = "xen")]
+fn run_xen(t: &mut Tape, cx: &mut Cx) -> Result<(), String> {
+    use crate::xen_emul::{gen_kind, live, reset, XenMem};
+    reset();
+    let n = 2 + t.idx(2);
+    let mut regs = Vec::new();
+    let mut kinds = Vec::new();
+    let mut cur = 0x1000u64 * (1 + t.below(3));
+    for i in 0..n {
+        let size = if t.chance(2, 3) { 4096 } else { 1 + t.below(40) };
+        regs.push((cur, size));
+        kinds.push(gen_kind(t));
+        // the next region is adjacent when this one fills its page(s), otherwise after a hole
+        cur += if size == 4096 && t.chance(3, 4) { 4096 } else { 0x2000 };
+        let _ = i;
+    }
+    let lay = Layout { regs };
+    let m = XenMem::build(&lay, &kinds)?;
+    note!(cx, "xen kinds {:?}", kinds);
+    cx.nt("xen_regions");
+    if kinds.iter().any(|k| *k == crate::xen_emul::Kind::GrantOnDemand) {
+        cx.nt("on_demand_region");
+    }
+    let before = live();
+    let r = history(&m, &lay, &[], t, cx);
+    ensure!(live() == before, "temporary Xen windows remain mapped after the history: {:x?}", live());
+    r
+}
+
+#[cfg(not(feature = "xen"))]
+fn run_xen(_t: &mut Tape, _cx: &mut Cx) -> Result<(), String> {
+    Ok(())
+}
+
 fn run_mock(t: &mut Tape, cx: &mut Cx) -> Result<(), String> {
     let lay = gen_layout(t, 4, TopMode::Mock, true);
     let m = MockMem::new(&lay);
@@ -519,6 +555,7 @@ pub fn property() -> Property {
         subchecks: vec![
             SubCheck { name: "mmap", builds: &[Build::Std, Build::Xen], kind: Kind::Random { quick: 24_000, thorough: 1_200_000, max_words: 200 }, run: run_mmap },
             SubCheck { name: "mock", builds: &[Build::Std], kind: Kind::Random { quick: 16_000, thorough: 800_000, max_words: 200 }, run: run_mock },
+            SubCheck { name: "xen_regions", builds: &[Build::Xen], kind: Kind::Random { quick: 3_000, thorough: 150_000, max_words: 200 }, run: run_xen },
             SubCheck { name: "regress", builds: &[Build::Std], kind: Kind::Exhaustive { gen: gen_regress }, run: run_regress },
         ],
     }
